@@ -11,16 +11,24 @@ import Amshan.Props.C04
                     identification pattern (`identMatch`, described by `C04.ident_wellformed`);
     data block      no octet of the payload exceeds 0x80   (NOT "is 7-bit": the source tests
                     `char > 0x80`, so the single non-ASCII octet 0x80 passes - checked on the real code);
-    end line        the text after '!' is 7-bit and is either all white space or a text `int(text, 16)`
-                    accepts whose value is the CRC-16/ARC of the bytes from '/' through '!'.
+    end line        the text after '!' is 7-bit and is either all white space or a text
+                    `int(text.strip(), 16)` accepts whose value is the CRC-16/ARC of the bytes from '/'
+                    through '!'.
 
-  The last condition is spelled out by `IsPyHexInt` (`int16_grammar`: the model `Py.intBase16` accepts
-  exactly that grammar): besides the four hex digits of the standard, `int()` accepts surrounding
+  The last condition is spelled out by `IsEndHexInt` (`end_grammar`: `Py.intBase16 ∘ Py.strip` accepts
+  exactly that grammar): besides the four hex digits of the standard, the composite accepts surrounding
   white space (also between '!' and the digits), a sign, a `0x` / `0X` prefix, single underscores between
   digits and any number of digits - "!0x92E5", "!+92E5", "!9_2_E_5", "! 92E5", "!00092E5" are all accepted
   when 0x92E5 is the CRC; "-92E5", "92E5 x", "_92E5", "92E5_", "0x" are not.  All of them were run
   through the real `DataReadout.is_valid` (same verdicts).  None of this weakens soundness: whatever
   the form, the VALUE must equal the CRC (`valid_checksum_value`).
+
+  Two white-space sets are involved and they differ.  `int()` ITSELF (`int16_grammar`, `IsPyHexInt`)
+  skips only C white space (32, 9..13) on an all-ASCII `str`: `int("\x1f1F", 16)` and `int("1F\x1c", 16)`
+  raise ValueError in CPython.  The library however calls `int(end[1:].strip(), base=16)`, and
+  `str.strip()` also removes the separators 0x1C..0x1F, so around the number in the end line those ARE
+  accepted ("! 92E5 \x1f" is valid): `IsEndHexInt` is `IsPyHexInt` with the `str.strip()` white space
+  (`end_grammar`, `isEndHexInt_iff_strip`).
 
   `valid_complete_general` is the property's sentence ("a correctly check-summed all-ASCII readout with
   a well-formed identification line is reported valid") for arbitrary bytes; `valid_iff_bytes` states
@@ -30,22 +38,37 @@ namespace Amshan.C04
 open Amshan.Gen Amshan.P1 Amshan.P1Spec Amshan.Py Amshan.P1L
 
 /-- **which texts `int(text, 16)` accepts**: the model of the built-in succeeds with value `v` exactly
-    on: white space, optional sign, optional `0x`/`0X` (+ one optional underscore), hex digits with
-    single underscores strictly between digits, white space -/
+    on: C white space (32, 9..13; not 0x1C..0x1F), optional sign, optional `0x`/`0X` (+ one optional
+    underscore), hex digits with single underscores strictly between digits, C white space -/
 theorem int16_grammar (t : List Nat) (v : Int) : Py.intBase16 t = .ok v ↔ IsPyHexInt t v :=
   intBase16_ok_iff t v
+
+/-- **which texts `int(text.strip(), 16)` accepts** (the composite of `expected_checksum`): the same
+    grammar with the white space of `str.strip()` (32, 9..13, 0x1C..0x1F) around the number -/
+theorem end_grammar (t : List Nat) (v : Int) : Py.intBase16 (Py.strip t) = .ok v ↔ IsEndHexInt t v :=
+  intBase16_strip_ok_iff t v
+
+/-- the composite grammar is `int()`'s own grammar on the stripped text -/
+theorem isEndHexInt_iff_strip (t : List Nat) (v : Int) : IsEndHexInt t v ↔ IsPyHexInt (Py.strip t) v := by
+  rw [← end_grammar, ← int16_grammar]
+
+/-- `int()` on its own does not skip the separators 0x1C..0x1F (CPython: ValueError), `str.strip()`
+    does; C white space is skipped by both -/
+example : Py.intBase16 [0x1f, 49, 70] = .error .valueError ∧ Py.intBase16 [49, 70, 0x1c] = .error .valueError ∧
+    Py.intBase16 [32, 49, 70] = .ok 31 ∧ Py.intBase16 [0x0b, 49, 70, 0x0c] = .ok 31 ∧
+    Py.intBase16 (Py.strip [0x1f, 49, 70, 0x1c]) = .ok 31 := by decide
 
 /-- the four-hex-digit checksum texts of the specification are among them -/
 theorem checksumText_is_hexInt (t : List Nat) (v : Nat) (h : IsChecksumText t v) : IsPyHexInt t (v : Int) :=
   isPyHexInt_of_checksumText t v h
 
 /-- `expected_checksum` of any readout, as a function of the text after '!': UnicodeDecodeError on an
-    octet ≥ 0x80, None on white space only, otherwise `int(text, 16)` (ValueError when that fails) -/
+    octet ≥ 0x80, None on white space only, otherwise `int(text.strip(), 16)` (ValueError when that fails) -/
 theorem expected_checksum_exact (raw : List Nat) (r : Readout) (hm : Readout.make raw = .ok r) :
     r.expectedChecksum =
       if r.afterBang.all (· < 128) then
         (if r.afterBang.all isStrSpace then .ok none
-         else match Py.intBase16 r.afterBang with
+         else match Py.intBase16 (Py.strip r.afterBang) with
            | .ok v => .ok (some v)
            | .error e => .error e)
       else .error .unicodeError :=
@@ -60,15 +83,15 @@ def DataOk (r : Readout) : Prop := ∀ x ∈ r.payload, x ≤ 0x80
 def EndOk (r : Readout) : Prop :=
   (∀ x ∈ r.afterBang, x < 128) ∧
   (r.afterBang.all isStrSpace = true ∨
-   IsPyHexInt r.afterBang (crc16Arc (r.bytes.take (r.endPos + 1)) : Nat))
+   IsEndHexInt r.afterBang (crc16Arc (r.bytes.take (r.endPos + 1)) : Nat))
 
 /-- the end-line condition in terms of the model of `int()` -/
 theorem endOk_iff_model (r : Readout) : EndOk r ↔
     (∀ x ∈ r.afterBang, x < 128) ∧
     (r.afterBang.all isStrSpace = true ∨
-     Py.intBase16 r.afterBang = .ok ((crc16Arc (r.bytes.take (r.endPos + 1)) : Nat) : Int)) := by
+     Py.intBase16 (Py.strip r.afterBang) = .ok ((crc16Arc (r.bytes.take (r.endPos + 1)) : Nat) : Int)) := by
   unfold EndOk
-  rw [int16_grammar]
+  rw [end_grammar]
 
 theorem checksum_part_iff (raw : List Nat) (r : Readout) (hm : Readout.make raw = .ok r) :
     (∃ expected, r.expectedChecksum = .ok expected ∧ mismatch r expected = false) ↔ EndOk r := by
@@ -84,7 +107,7 @@ theorem checksum_part_iff (raw : List Nat) (r : Readout) (hm : Readout.make raw 
       constructor
       · rintro ⟨expected, hexp, hmm⟩
         refine ⟨hall.1 hasc, Or.inr ?_⟩
-        cases hi : Py.intBase16 r.afterBang with
+        cases hi : Py.intBase16 (Py.strip r.afterBang) with
         | error e => rw [hi] at hexp; cases hexp
         | ok v =>
           rw [hi] at hexp
@@ -130,12 +153,12 @@ theorem invalid_iff (raw : List Nat) (r : Readout) (hm : Readout.make raw = .ok 
   cases b <;> simp
 
 /-- soundness for EVERY accepted checksum form: in a readout reported valid, whatever text after
-    '!' `int(text, 16)` accepts, its value is the CRC-16/ARC of the bytes from '/' through '!' -/
+    '!' `int(text.strip(), 16)` accepts, its value is the CRC-16/ARC of the bytes from '/' through '!' -/
 theorem valid_checksum_value (raw : List Nat) (r : Readout) (hm : Readout.make raw = .ok r)
-    (h : r.isValid = .ok true) (v : Int) (hv : IsPyHexInt r.afterBang v) :
+    (h : r.isValid = .ok true) (v : Int) (hv : IsEndHexInt r.afterBang v) :
     v = (crc16Arc (r.bytes.take (r.endPos + 1)) : Nat) := by
   obtain ⟨_, _, _, hend⟩ := (valid_iff raw r hm).1 h
-  have hi := (int16_grammar _ _).2 hv
+  have hi := (end_grammar _ _).2 hv
   rcases hend with hsp | hcrc
   · -- white space only is not in the grammar
     obtain ⟨w1, sgn, pre, body, w2, ds, ht, _, _, _, _, hbody, _⟩ := hv
@@ -144,7 +167,7 @@ theorem valid_checksum_value (raw : List Nat) (r : Readout) (hm : Readout.make r
     have := List.all_eq_true.1 hsp c hmem
     rw [hexVal_not_space c t hc] at this
     cases this
-  · have := (int16_grammar _ _).2 hcrc
+  · have := (end_grammar _ _).2 hcrc
     rw [hi] at this
     exact Except.ok.inj this
 
@@ -165,7 +188,7 @@ theorem valid_complete_general (raw : List Nat) (r : Readout) (hm : Readout.make
   · rw [EndOk, h]; exact ⟨by simp, Or.inl rfl⟩
   · rw [EndOk, h]; exact ⟨by decide, Or.inl rfl⟩
   · rw [EndOk, h]; exact ⟨by decide, Or.inl rfl⟩
-  · refine ⟨?_, Or.inr (checksumText_is_hexInt _ _ h)⟩
+  · refine ⟨?_, Or.inr (isEndHexInt_of_isPyHexInt _ _ (checksumText_is_hexInt _ _ h))⟩
     obtain ⟨a, b, c, d, ta, tb, tc, td, term, hte, ha, hb, hc, hd, _, hterm⟩ := h
     intro x hx
     rw [hte] at hx
@@ -203,7 +226,7 @@ theorem valid_iff_bytes (ws line data after : List Nat) (hws : ws.all isBytesSpa
         (∀ x ∈ line, x < 128) ∧ (∃ m, identMatch (strip (47 :: line ++ [10])) = some m) ∧
         (∀ x ∈ data, x ≤ 0x80) ∧ (∀ x ∈ after, x < 128) ∧
         (after.all isStrSpace = true ∨
-         IsPyHexInt after (crc16Arc (47 :: line ++ [10] ++ data ++ [33]) : Nat))) := by
+         IsEndHexInt after (crc16Arc (47 :: line ++ [10] ++ data ++ [33]) : Nat))) := by
   have hstrip : lstripBytes (ws ++ (47 :: line ++ [10] ++ data ++ [33] ++ after)) =
       47 :: (line ++ [10] ++ data ++ [33] ++ after) := by
     unfold lstripBytes
